@@ -1,70 +1,7 @@
-import LazeModel.Model.ModuleEnv
+import LazeModel.Model.Build
 /-! `src/generate.rs` `configure_build`, `src/build.rs` `Build::new`, `src/download.rs`,
     `Context::collect_tasks`: everything that turns (bag, builder, app, CLI) into ninja statements. -/
 namespace Laze
-
-/-! ### merged `provided` tables (`ContextBag::add_module` + `merge_provides`) -/
-
-abbrev PTable := List (Name × List Name)
-
-def PTable.get (t : PTable) (f : Name) : List Name := ((t.find? (·.1 == f)).map (·.2)).getD []
-
-def PTable.add (t : PTable) (f : Name) (n : Name) : PTable :=
-  if t.any (·.1 == f) then t.map (fun e => if e.1 == f then (f, if e.2.contains n then e.2 else e.2 ++ [n]) else e)
-  else t ++ [(f, [n])]
-
-/-- the providers registered by `add_module` for the modules of one context, in insertion order -/
-def Context.ownProvided (c : Context) : PTable :=
-  c.modules.foldl (fun t m => (m.provides.getD []).foldl (fun t p => PTable.add t p m.name) t) []
-
-/-- `union_with_key`: the context's own providers first, then the parent's -/
-def PTable.union (own parent : PTable) : PTable :=
-  own.map (fun e => (e.1, dedup (e.2 ++ parent.get e.1))) ++ parent.filter (fun e => !(own.any (·.1 == e.1)))
-
-/-- drop inherited providers that this context shadows with a module that does not provide the name -/
-def Context.filterProvided (c : Context) (t : PTable) : PTable :=
-  t.map (fun e => (e.1, e.2.filter (fun q => match c.module? q with
-    | some m => (m.provides.getD []).contains e.1
-    | none => true)))
-
-/-- `merge_provides` along a chain `[c, parent, …, root]` -/
-def providedUp : List Context → PTable
-  | [] => []
-  | [root] => root.ownProvided
-  | c :: rest => c.filterProvided (c.ownProvided.union (providedUp rest))
-
-def Bag.provided (b : Bag) (c : Name) : PTable := providedUp (b.chainCtx c)
-
-/-! ### the build (`Build::new`) and the resolver's world -/
-
-structure Cli where
-  select : Option (List Dep) := none
-  disable : Option (List Name) := none
-  env : Option Env := none
-  deriving Repr
-
-/-- the app clone: `cli ++ app.selects ++ [Hard context::<builder>]` -/
-def appClone (app : Module) (builder : Name) (cli : Cli) : Module :=
-  { app with selects := (cli.select.getD []) ++ app.selects ++ [.hard ("context::" ++ builder)] }
-
-def buildWorld (b : Bag) (builder : Name) (app' : Module) : World :=
-  { lookup := fun n => if n == app'.name then some app'.toMod else (b.resolveModule builder n).map Module.toMod
-    providers := fun f => (b.provided builder).get f }
-
-def initialDisabled (b : Bag) (builder : Name) (cli : Cli) : List Name :=
-  dedup (b.collectDisabled builder ++ cli.disable.getD [])
-
-def allModuleNames (b : Bag) : Nat := (b.contexts.map (·.modules.length)).foldl (· + ·) 0
-
-def resolveTop (b : Bag) (builder : Name) (app : Module) (cli : Cli) : Except RErr RState :=
-  let app' := appClone app builder cli
-  let s0 : RState := ⟨[], [], (initialDisabled b builder cli).map (fun d => (d, none)), []⟩
-  resolveDeep (buildWorld b builder app') (allModuleNames b + 2) app'.toMod s0
-
-/-- the selected modules as `Module`s (the app clone for the app's name) -/
-def resolvedOf (b : Bag) (builder : Name) (app' : Module) (s : RState) : Resolved :=
-  { modules := s.sel.filterMap (fun n => if n == app'.name then some app' else b.resolveModule builder n)
-    providers := s.providedBy.foldl (fun t e => PTable.add t e.1 e.2) [] }
 
 /-! ### environment assembly -/
 
